@@ -96,6 +96,14 @@ MUTANTS = [
        "    s.deq.append( {'attr':[], 'index':[], 's_attr':num_str, 's_index':\"\"} )", 'R-C12-deq'),
     # R-C12-wire-forms
     _m('interface-port-forms-not-connected', YS3, "connections = s.port_connection_gen( direction, port_id, n_dim, port_dtype )", "connections = []", 'R-C12-wire-forms'),
+    dict(name='subcomp-ifc-wire-marker-not-forwarded', rule='R-C12-wire-forms', edits=[
+        dict(file=YS4, old='        present = "present" in _wire\n', new='', count=1),
+        dict(file=YS4, old='        dct = { "msb" : msb, "id_" : id_, "n_dim" : ifc_n_dim+n_dim }\n        if present:\n          dct["present"] = True\n        wire_decl.append( dct )\n',
+             new='        wire_decl.append( { "msb" : msb, "id_" : id_, "n_dim" : ifc_n_dim+n_dim } )\n', count=1)]),
+    _m('subcomp-ifc-conn-marker-not-forwarded', YS4, '        if present:\n          for dct in dct_list:\n            dct["present"] = True\n', '', 'R-C12-wire-forms'),
+    _m('subcomp-wire-filter-ignores-marker', YS4, 'if c_n_dim or n_dim or "present" in wire:', 'if c_n_dim or n_dim:', 'R-C12-wire-forms'),
+    _m('ifc-wire-filter-ignores-own-dims', YS3, 'if n_dim or ifc_ndim or "present" in wire_decl:', 'if n_dim or "present" in wire_decl:', 'R-C12-wire-forms'),
+    _m('port-wire-filter-ignores-marker', YS1, '      if n_dim or "present" in dct:\n', '      if n_dim:\n', 'R-C12-wire-forms'),
     # shared rules on the Yosys classes
     _m('yosys-assign-direction', YS1, 'return f"assign {rd} = {wr};"', 'return f"assign {wr} = {rd};"', 'R-tr-conn'),
     _m('yosys-part-select-inclusive', YS1, "_stop = stop-1", "_stop = stop", 'R-tr-slice'),
@@ -118,8 +126,7 @@ MUTANTS = [
        'R-layout-agree'),
     _m('yosys-structural-array-literal-ascending', YS2, "        for i in reversed( range( n_dim[0]) ):\n          _ret = _gen_packed_array",
        "        for i in range( n_dim[0] ):\n          _ret = _gen_packed_array", 'R-layout-agree'),
-    _m('yosys-loop-increment-direction', YB2, "inc_op   = '+' if node.step.value > 0 else '-'", "inc_op   = '+'", 'R-tr-for'),
-    # re-introductions of repaired defects (stale on a tree without the repairs)
+    # re-introductions of repaired defects
     _m('yosys-loop-increment-direction-2', YB2, "inc_op   = '-' if node.step._value < 0 else '+'", "inc_op   = '+'", 'R-tr-for'),
     _m('yosys-loop-compare-always-lt', YB2, "cmp_op   = '>' if node.step._value < 0 else '<'", "cmp_op   = '<' if node.step._value < 0 else '<'", 'R-tr-for'),
     _m('sext-index-always-one-bit', VB1, "      _one_bit = current_nbits == 1\n", "      _one_bit = True\n", 'R-tr-slice'),
@@ -142,6 +149,36 @@ MUTANTS = [
 ]
 
 EQUIV = [
+    # loop / comprehension / map spellings of `one value per item, in order`
+    _m('connections-as-comprehension', T.G_S1,
+       "    connections = []\n    _connections = m.get_metadata( StructuralRTLIRGenL1Pass.connections )\n    for writer, reader in _connections:\n"
+       "      connections.append( s.rtlir_tr_connection(\n        s.rtlir_signal_expr_translation( writer, m, 'writer' ),\n"
+       "        s.rtlir_signal_expr_translation( reader, m, 'reader' )\n      ) )\n",
+       "    _connections = m.get_metadata( StructuralRTLIRGenL1Pass.connections )\n    connections = [\n      s.rtlir_tr_connection(\n"
+       "        s.rtlir_signal_expr_translation( writer, m, 'writer' ),\n        s.rtlir_signal_expr_translation( reader, m, 'reader' )\n"
+       "      ) for writer, reader in _connections\n    ]\n"),
+    _m('connections-as-map-lambda', T.G_S1,
+       "    connections = []\n    _connections = m.get_metadata( StructuralRTLIRGenL1Pass.connections )\n    for writer, reader in _connections:\n"
+       "      connections.append( s.rtlir_tr_connection(\n        s.rtlir_signal_expr_translation( writer, m, 'writer' ),\n"
+       "        s.rtlir_signal_expr_translation( reader, m, 'reader' )\n      ) )\n",
+       "    _connections = m.get_metadata( StructuralRTLIRGenL1Pass.connections )\n    connections = list( map( lambda wr: s.rtlir_tr_connection(\n"
+       "        s.rtlir_signal_expr_translation( wr[0], m, 'writer' ),\n        s.rtlir_signal_expr_translation( wr[1], m, 'reader' )\n"
+       "      ), _connections ) )\n"),
+    _m('freevars-as-comprehension', T.G_B1,
+       "    freevars = []\n    for name, (fvar, rtype) in s.behavioral.freevars[m].items():\n      freevars.append( s.translate_freevar( name, fvar, rtype ) )\n",
+       "    freevars = [ s.translate_freevar( name, fvar, rtype )\n                 for name, (fvar, rtype) in s.behavioral.freevars[m].items() ]\n"),
+    _m('signal-expr-pairs-as-append-loop', T.SGEN1,
+       "    connections = [ (gen_signal_expr(m, x[0]), gen_signal_expr(m, x[1])) for x in ordered_conns ]\n",
+       "    connections = []\n    for x in ordered_conns:\n      connections.append( (gen_signal_expr(m, x[0]), gen_signal_expr(m, x[1])) )\n"),
+    _m('block-statements-as-comprehension', T.SV_B[1],
+       "    for stmt in node.body:\n      body.extend( s.visit( stmt ) )\n",
+       "    body = [ line for stmt in node.body for line in s.visit( stmt ) ]\n", count='first'),
+    _m('assign-statements-as-append-loop', T.SV_B[1],
+       "    return [ tplt.format(\n      target = target, assignment_op = assignment_op, value = value\n    ) for target in reversed(targets) ]\n",
+       "    stmts = []\n    for target in reversed(targets):\n      stmts.append( tplt.format( target = target, assignment_op = assignment_op, value = value ) )\n    return stmts\n"),
+    _m('wire-marker-forwarded-in-literal', YS4, '        dct = { "msb" : msb, "id_" : id_, "n_dim" : ifc_n_dim+n_dim }\n        if present:\n          dct["present"] = True\n',
+       '        dct = { "msb" : msb, "id_" : id_, "n_dim" : ifc_n_dim+n_dim }\n        if "present" in _wire:\n          dct["present"] = True\n'),
+    _m('wire-filter-disjuncts-reordered', YS4, 'if c_n_dim or n_dim or "present" in wire:', 'if "present" in wire or n_dim or c_n_dim:'),
     _m('leaf-slice-via-lsb', YS2, "    msb, lsb = c_nbits-1, c_nbits-nbits", "    lsb = c_nbits-nbits\n    msb = lsb+nbits-1"),
     _m('packed-descending-range', YS2, "        for i in reversed( range( n_dim[0]) ):", "        for i in range( n_dim[0] - 1, -1, -1 ):", count='first'),
     _m('field-port-id-as-fstring', YS2, 'ret += s.dtype_gen( d, id_+"__"+name, field )', 'ret += s.dtype_gen( d, f"{id_}__{name}", field )'),
